@@ -273,6 +273,36 @@ func runC12(r *Run) {
 	}
 	pl.Done()
 
+	// ---- ReadFrom rejects nothing that Decode accepts
+	if rf, dm := p.Meth("Message", "ReadFrom"), p.buildClosures().DecodeM; rf != nil && dm != nil {
+		rr := r.Rule("C12.readfrom", "ReadFrom fails only with the error of the reader's Read or with Decode's own error: every datagram that fits the read buffer and decodes is delivered", 1)
+		r.Analysed(rf)
+		idx := errorResultIndex(rf)
+		rep := map[*ssa.Return]bool{}
+		n := 0
+		q := &PathQuery{P: p, Fn: rf}
+		q.AtReturn = func(ret *ssa.Return, st uint64, c *PathCtx) {
+			n++
+			v := c.Resolve(deref(c.Resolve(ret.Results[idx])))
+			ok := isNilConst(v)
+			if call, isC := v.(*ssa.Call); isC && callsFn(call, dm) {
+				ok = true
+			}
+			if e, isE := v.(*ssa.Extract); isE {
+				if call, isC := e.Tuple.(*ssa.Call); isC && call.Call.IsInvoke() && call.Call.Method.Name() == "Read" {
+					ok = true
+				}
+			}
+			if !ok && !rep[ret] {
+				rep[ret] = true
+				rr.ViolationPath(rf, instrPos(ret), "return "+exprDepth(v, 0), "ReadFrom reports an error of its own: a complete datagram (for example one that exactly fills the read buffer) is dropped by the client's reader although it decodes", c.Witness(rf, ret))
+			}
+		}
+		q.Run()
+		rr.Instance(fnName(rf), true, map[string]int{"return_paths": n})
+		rr.Done()
+	}
+
 	// ---- the message the handler sees is the decode of exactly the received datagram (shared with C08.reset)
 	if cl := p.buildClosures(); cl.DecodeM != nil && cl.Message != nil {
 		dc := r.Rule("C12.decode", "on every path of Decode (run by the reader on its reused Message) the attribute list is emptied before anything is appended and before every successful return: the event's message carries no attribute of an earlier datagram", 1)
